@@ -19,7 +19,7 @@ META = {
 KEYED = ["__getitem__", "__setitem__", "__delitem__", "__contains__", "get", "pop", "setdefault"]
 # inherited OrderedDict / dict methods through which a key can enter or be looked up, and how each is covered
 INSERTING = {
-    "__init__": "must be overridden (folds via _convert_keys)",
+    "__init__": "OrderedDict.__init__ stores through self.update / self.__setitem__ (overridden); an override must pass every argument on (K3)",
     "__setitem__": "must be overridden",
     "setdefault": "must be overridden",
     "update": "must be overridden",
@@ -41,17 +41,27 @@ def run(ctx: Ctx) -> None:
     ctx.not_decided += ["equivalence with a reference model over operation sequences is not replayed (follows from K0-K3 and OrderedDict's contract)"]
     meths = mi.methods["CaseInsensitiveOrderedDict"]
 
-    # K0: _k
-    ctx.rule("K0", "_k lower-cases string keys and returns other keys unchanged (PAI on both type tags)", 2)
+    # K0: the key-folding helper (found by role: what __setitem__ wraps the key in before calling the superclass)
+    ctx.rule("K0", "the key-folding helper lower-cases string keys and returns other keys unchanged (PAI on both type tags)", 2)
     I = e.interp(allow_fork=False)
     cls_ref = pai.FuncRef(None, cls=CI)
-    outs = I.explore(f"{CI}._k", lambda: (cls_ref, [SStr.atom("K")], {}))
-    good = len(outs) == 1 and outs[0].kind == "return" and outs[0].value == SStr.atom("K").lower()
-    ctx.check(good, "K0", "_k(str)", repo.loc("ordereddict", meths.get("_k")), "returns key.lower()", f"_k(<string key>) yields {[ (o.kind, o.value, o.exc) for o in outs]}")
-    op = SOpaque("int", "intkey")
-    outs = I.explore(f"{CI}._k", lambda: (cls_ref, [op], {}))
-    good = len(outs) == 1 and outs[0].kind == "return" and outs[0].value is op
-    ctx.check(good, "K0", "_k(non-str)", repo.loc("ordereddict", meths.get("_k")), "returns the key itself", f"_k(<int key>) yields {[(o.kind, o.value, o.exc) for o in outs]}")
+    helper = None
+    si = meths.get("__setitem__")
+    if si is not None:
+        for c in calls_in(si):
+            if isinstance(c.func, ast.Attribute) and c.func.attr == "__setitem__" and c.args and isinstance(c.args[0], ast.Call) and isinstance(c.args[0].func, ast.Attribute) and c.args[0].func.attr in meths:
+                helper = c.args[0].func.attr
+    if helper is None:
+        ctx.ok("K0", "no separate folding helper", "mappyfile/ordereddict.py", "the folding is written inline; K1 evaluates every keyed method", nontrivial=False)
+        ctx.ok("K0", "(inline)", "mappyfile/ordereddict.py", "see K1", nontrivial=False)
+    else:
+        outs = I.explore(f"{CI}.{helper}", lambda: (cls_ref, [SStr.atom("K")], {}))
+        good = len(outs) == 1 and outs[0].kind == "return" and outs[0].value == SStr.atom("K").lower()
+        ctx.check(good, "K0", f"{helper}(str)", repo.loc("ordereddict", meths.get(helper)), "returns key.lower()", f"{helper}(<string key>) yields {[ (o.kind, o.value, o.exc) for o in outs]}")
+        op = SOpaque("int", "intkey")
+        outs = I.explore(f"{CI}.{helper}", lambda: (cls_ref, [op], {}))
+        good = len(outs) == 1 and outs[0].kind == "return" and outs[0].value is op
+        ctx.check(good, "K0", f"{helper}(non-str)", repo.loc("ordereddict", meths.get(helper)), "returns the key itself", f"{helper}(<int key>) yields {[(o.kind, o.value, o.exc) for o in outs]}")
 
     # K1: keyed operations
     ctx.rule("K1", "in every keyed operation the key reaches OrderedDict only as _k(key); the superclass result is returned; optional arguments are forwarded exactly as given", 18)
@@ -119,12 +129,12 @@ def run(ctx: Ctx) -> None:
             ctx.check(k in meths, "K2", f"override {k}", "mappyfile/ordereddict.py", why, f"{k} is not overridden in CaseInsensitiveOrderedDict: keys inserted through it keep their case")
         else:
             ctx.ok("K2", f"routed {k}", "mappyfile/ordereddict.py", why, nontrivial=False)
-    extra_defs = set(meths) - set(KEYED) - set(INSERTING) - {"_k", "has_key", "_convert_keys"}
+    extra_defs = set(meths) - set(KEYED) - set(INSERTING) - {helper, "has_key", "_convert_keys"}
     for k in sorted(extra_defs):
         ctx.ok("K2", f"other method {k}", repo.loc("ordereddict", meths[k]), "not a key-inserting OrderedDict method", nontrivial=False)
 
     # K3: update / __init__ / _convert_keys
-    ctx.rule("K3", "update() passes its arguments through the folding constructor; __init__ always runs _convert_keys; _convert_keys re-stores every key of a snapshot through the folding __setitem__", 4)
+    ctx.rule("K3", "update() passes its arguments through the folding constructor; __init__ hands everything to the superclass constructor (which stores through the overridden methods); a _convert_keys pass, where present, re-stores every key of a snapshot through the folding __setitem__", 4)
     if "update" in meths:
         up = meths["update"]
         sup = [c for c in calls_in(up) if isinstance(c.func, ast.Attribute) and c.func.attr == "update" and isinstance(c.func.value, ast.Call) and dotted(c.func.value.func) == "super"]
@@ -143,9 +153,14 @@ def run(ctx: Ctx) -> None:
         ctx.check(params <= used, "K3", "update forwards every parameter", repo.loc("ordereddict", up), f"parameters {sorted(params)} all reach super().update", f"update() drops parameter(s) {sorted(params - used)}")
     if "__init__" in meths:
         init = meths["__init__"]
-        top = [st for st in init.body if isinstance(st, ast.Expr) and isinstance(st.value, ast.Call)]
-        names = [dotted(st.value.func) or norm(st.value.func) for st in top]
-        ctx.check("self._convert_keys" in names and any(n.startswith("super()") and n.endswith("__init__") for n in names) and names.index("self._convert_keys") > min(i for i, n in enumerate(names) if n.endswith("__init__")), "K3", "__init__ runs _convert_keys after the superclass constructor", repo.loc("ordereddict", init), "unconditional top-level calls", "__init__ does not fold the keys it was constructed with")
+        # what the constructor was given must reach storage through a folding path: either every
+        # argument is handed to the superclass constructor (OrderedDict.__init__ stores through
+        # self.update / self.__setitem__, both overridden - frozen stdlib fact), unconditionally, ...
+        top = [st.value for st in init.body if isinstance(st, ast.Expr) and isinstance(st.value, ast.Call)]
+        sup_init = [c for c in top if isinstance(c.func, ast.Attribute) and c.func.attr == "__init__" and isinstance(c.func.value, ast.Call) and dotted(c.func.value.func) == "super"]
+        iparams = {a.arg for a in init.args.args[1:]} | ({init.args.kwarg.arg} if init.args.kwarg else set()) | ({init.args.vararg.arg} if init.args.vararg else set())
+        passed = {n.id for c in sup_init for n in ast.walk(c) if isinstance(n, ast.Name)}
+        ctx.check(bool(sup_init) and iparams <= passed, "K3", "__init__ hands every argument to the superclass constructor, unconditionally", repo.loc("ordereddict", init), "items are stored through the overridden update / __setitem__", f"__init__ does not pass {sorted(iparams - passed) or 'its arguments'} to super().__init__ at the top level: items given to the constructor may bypass the folding store")
     if "_convert_keys" in meths:
         ck = meths["_convert_keys"]
         loops = [n for n in ast.walk(ck) if isinstance(n, ast.For)]
